@@ -347,6 +347,8 @@ func (c *Conn) Read(p []byte) (int, error) {
 		default:
 		}
 	}
+	atomic.AddInt32(&c.readers, 1)
+	defer atomic.AddInt32(&c.readers, -1)
 	select {
 	case d := <-c.in:
 		return copy(p, d), nil
@@ -437,6 +439,9 @@ func (c *Conn) CloseWrite() error {
 
 // ReleaseRead unblocks a pending Read without counting as a Close (WithNoConnClose precondition).
 func (c *Conn) ReleaseRead() { c.closeOnce.Do(func() { close(c.closed) }) }
+
+// ReaderWaiting reports whether a goroutine is inside Read right now, waiting for a datagram.
+func (c *Conn) ReaderWaiting() bool { return atomic.LoadInt32(&c.readers) > 0 }
 
 // ShortNext makes the next n writes report len-1 bytes written and no error.
 func (c *Conn) ShortNext(n int) {
@@ -576,6 +581,9 @@ type TapAgent struct {
 	CloseErr error
 	// OnClosed is called after the inner Close returned (used to release a pending Read under WithNoConnClose).
 	OnClosed func()
+	// CloseKeepsTable: Close fails with CloseErr before doing anything (an agent that could not shut down): nothing is
+	// flushed, no closed events
+	CloseKeepsTable bool
 	// FailStarts makes the next n Start calls fail with ErrScriptedAgentStart (without reaching the inner agent).
 	FailStarts int32
 	// VirtualClock: the client was given the world's clock, so every Collect time must be a reading of that clock.
@@ -600,6 +608,14 @@ func (a *TapAgent) Process(m *stun.Message) error {
 // Close implements stun.ClientAgent.
 func (a *TapAgent) Close() error {
 	a.W.CP("agent.Close.before")
+	if a.CloseKeepsTable && a.CloseErr != nil {
+		a.W.CP("agent.Close.after")
+		if a.OnClosed != nil {
+			a.OnClosed()
+		}
+
+		return a.CloseErr
+	}
 	err := a.Inner.Close()
 	a.W.CP("agent.Close.after")
 	if a.OnClosed != nil {
